@@ -21,6 +21,10 @@ type HeapState struct {
 	parents []heapParent
 	base    string // suffix of base constants when there are no parents
 	epoch   Term   // changes whenever any heap may have changed (for heap-dependent pure functions)
+	// private families (L$...: non-escaping locals, ghost counters) survive a havoc: names not in
+	// privExcl resolve through privFrom, the state before the havoc
+	privFrom *HeapState
+	privExcl map[string]bool
 }
 
 func (e *Enc) newBaseHeap(tag string) *HeapState {
@@ -29,7 +33,7 @@ func (e *Enc) newBaseHeap(tag string) *HeapState {
 }
 
 func (h *HeapState) clone() *HeapState {
-	n := &HeapState{enc: h.enc, m: map[string]Term{}, parents: h.parents, base: h.base, epoch: h.epoch}
+	n := &HeapState{enc: h.enc, m: map[string]Term{}, parents: h.parents, base: h.base, epoch: h.epoch, privFrom: h.privFrom, privExcl: h.privExcl}
 	for k, v := range h.m {
 		n.m[k] = v
 	}
@@ -42,7 +46,9 @@ func (h *HeapState) get(name, sort string) Term {
 		return t
 	}
 	var t Term
-	if len(h.parents) == 0 {
+	if len(h.parents) == 0 && h.privFrom != nil && strings.HasPrefix(name, "L$") && !h.privExcl[name] {
+		t = h.privFrom.get(name, sort)
+	} else if len(h.parents) == 0 {
 		fresh := !h.enc.declSet[name+h.base]
 		t = h.enc.declare(name+h.base, sort)
 		if fresh && h.base == "@0" && sort == arrSort(SInt, SInt) && !strings.HasPrefix(name, "L$") {
@@ -83,19 +89,11 @@ func (h *HeapState) set(name string, t Term) {
 // havocAll forgets everything.
 func (h *HeapState) havocAll() {
 	// private heaps (non-escaping locals, ghost call counters) are never affected by callees
-	keep := map[string]Term{}
-	for name, srt := range h.enc.famSorts {
-		if strings.HasPrefix(name, "L$") {
-			keep[name] = h.get(name, srt)
-		}
-	}
-	defer func() {
-		for k, v := range keep {
-			h.m[k] = v
-		}
-	}()
+	prev := h.clone()
 	h.m = map[string]Term{}
 	h.parents = nil
+	h.privFrom = prev
+	h.privExcl = nil
 	h.base = fmt.Sprintf("@h%d", h.enc.nextID())
 	h.epoch = h.enc.freshConst("epoch", SInt)
 	h.enc.noteWrite("*")
